@@ -81,6 +81,9 @@ def cases(draw, client):
     pauses = draw(st.lists(st.tuples(st.integers(1, 30), st.integers(1, 12)), min_size=0, max_size=6))
     fail = draw(st.one_of(st.none(), st.none(), st.integers(1, 25)))
     stagger = draw(st.lists(st.sampled_from([0, 0, 0, 1, 3]), min_size=n, max_size=n))
+    if draw(st.integers(0, 5)) == 0:
+        # the gateway stops sending (EOF on the read side) while a send() waits in drain(): the client reconnects mid-send
+        fail = ("eof", draw(st.integers(1, 6)), draw(st.sampled_from([30, 60, 120])))
     return msgs, pauses, fail, stagger
 
 
@@ -109,7 +112,9 @@ def run_case(client, msgs, pauses, fail, stagger):
         s.state_before = c.state.name
         for i, j in pauses:
             s.gw.write_actions.setdefault(s.base_writes + i, ("pause", j))
-        if fail is not None:
+        if isinstance(fail, (tuple, list)):
+            s.gw.write_actions[s.base_writes + fail[1]] = ("pause_eof", fail[2])
+        elif fail is not None:
             s.gw.write_actions[s.base_writes + fail] = ("fail",)
         tasks = []
         for (m, _), lag in zip(built, stagger):
@@ -134,6 +139,16 @@ def evaluate(client, msgs, pauses, fail, stagger, outcome, s, built):
         return [(f"{tag}|{outcome}", f"session ended with {outcome}: {s.errors[:1]}", case)]
     out = []
     link0 = s.gw.links[0]
+    # whatever happens, nothing may be written to a link after the client has opened a newer one
+    for a, b in zip(s.gw.links, s.gw.links[1:]):
+        late = [st_ for _, st_, _ in a.written if st_ > b.up_step]
+        if late:
+            out.append((f"{tag}|wrote-to-abandoned-link", f"{len(late)} write(s) went to link {a.index} after link {b.index} had been opened (loop steps {late[:4]}, "
+                        f"new link at step {b.up_step})", case))
+    if isinstance(fail, (tuple, list)):
+        if len(s.gw.links) > 1 and "DISCONNECTED" not in s.status_names:
+            out.append((f"{tag}|eof-not-reported", "the gateway closed its side during a send but DISCONNECTED was never reported", case))
+        return out
     written = link0.bytes_written()[s.base_bytes:]
     n_writes_link0 = link0.write_count - s.base_writes
     failed = fail is not None and fail <= s.gw.total_writes - s.base_writes and any(True for _ in [0])
@@ -203,6 +218,8 @@ def _work(ctx: Ctx, item):
         multi = sum(1 for (k, key, _), (_, ok) in zip(msgs, built) if ok and key in FAST)
         bad = any(not ok for _, ok in built)
         n_pauses_hit = sum(1 for i, _ in pauses if i <= s.gw.total_writes - getattr(s, "base_writes", 0))
+        if isinstance(fail, tuple):
+            ctx.klass("eof_during_send")
         if (multi >= 2 and n_pauses_hit) or bad or (fail is not None and s.gw.links and s.gw.links[0].dead) or client == "actisense":
             ctx.nt((client, repr(msgs), repr(pauses), fail, repr(stagger)))
         if multi >= 2 and n_pauses_hit:
@@ -227,5 +244,6 @@ def run(ctx: Ctx):
 def replay(ctx: Ctx, case):
     msgs = [tuple(m) for m in case["messages"]]
     pauses = [tuple(p) for p in case["pauses"]]
-    outcome, s, built = run_case(case["client"], msgs, pauses, case["fail"], case["stagger"])
-    return evaluate(case["client"], msgs, pauses, case["fail"], case["stagger"], outcome, s, built)
+    fail = tuple(case["fail"]) if isinstance(case["fail"], list) else case["fail"]
+    outcome, s, built = run_case(case["client"], msgs, pauses, fail, case["stagger"])
+    return evaluate(case["client"], msgs, pauses, fail, case["stagger"], outcome, s, built)
